@@ -10,6 +10,7 @@ import (
 	"bytes"
 	"crypto/sha256"
 	"fmt"
+	"github.com/btcsuite/btcd/wire"
 	"sort"
 	"strings"
 	"time"
@@ -364,9 +365,17 @@ func (w *relWorld) step(rb RelBlock) ([]relTxResult, *world.TwinResult, *Failure
 		case "postfail":
 			// a genuine vote over a body that fails after the signature check
 			var body voteBody
-			switch abs(rt.Ref) % 2 {
+			switch abs(rt.Ref) % 3 {
 			case 0:
 				body = voteBody{kind: kindPubkey, pubkey: f.btcKey.Public()} // key already registered
+			case 2:
+				// a known pending withdrawal whose output pays another script than the user's address
+				if len(f.pending) == 0 {
+					continue
+				}
+				body = f.bodyProcess()
+				body.tx = world.SerializeNoWitness(world.SpendTx(f.nextSalt(), wire.NewTxOut(int64(f.amount-1000), userScript(999_001)), wire.NewTxOut(int64(f.amount-1000), userScript(999_001))))
+				body.fee = uint64(len(body.tx))
 			default:
 				if len(f.pending) == 0 {
 					continue
